@@ -325,6 +325,47 @@ fn main() {
     }
     let text = std::fs::read_to_string(&args[2]).unwrap();
     use std::io::Write;
+    if args[1] == "threads" {
+        // C16 (c): the cases of the file evaluated concurrently from 16 threads; which thread takes which case next
+        // is decided by a seeded permutation (first line of the file: the seed) and a shared counter
+        let mut lines = text.lines();
+        let seed: u64 = lines.next().unwrap_or("1").trim().parse().unwrap_or(1);
+        let cases: Vec<String> = lines.map(|l| l.to_string()).collect();
+        let n = cases.len();
+        let mut order: Vec<usize> = (0..n).collect();
+        let mut x = seed.wrapping_mul(6364136223846793005).wrapping_add(1442695040888963407);
+        for i in (1..n).rev() {
+            x = x.wrapping_mul(6364136223846793005).wrapping_add(1442695040888963407);
+            let j = (x >> 33) as usize % (i + 1);
+            order.swap(i, j);
+        }
+        let cases = std::sync::Arc::new(cases);
+        let order = std::sync::Arc::new(order);
+        let next = std::sync::Arc::new(std::sync::atomic::AtomicUsize::new(0));
+        let results = std::sync::Arc::new(std::sync::Mutex::new(vec![String::new(); n]));
+        let mut handles = Vec::new();
+        for _ in 0..16 {
+            let (cases, order, next, results) = (cases.clone(), order.clone(), next.clone(), results.clone());
+            handles.push(std::thread::Builder::new().stack_size(64 << 20).spawn(move || loop {
+                let k = next.fetch_add(1, std::sync::atomic::Ordering::SeqCst);
+                if k >= order.len() {
+                    break;
+                }
+                let i = order[k];
+                let r = cmd_eval(&cases[i]);
+                results.lock().unwrap()[i] = r;
+            }).unwrap());
+        }
+        for h in handles {
+            let _ = h.join();
+        }
+        let stdout = std::io::stdout();
+        let mut w = std::io::BufWriter::new(stdout.lock());
+        for r in results.lock().unwrap().iter() {
+            writeln!(w, "{r}").unwrap();
+        }
+        return;
+    }
     let stdout = std::io::stdout();
     let mut w = std::io::BufWriter::new(stdout.lock());
     for line in text.lines() {
